@@ -506,7 +506,8 @@ def main(argv=None):
             errors.append((key, msg[1], msg[2]))
 
     def on_kill1(key, budget=False):
-        errors.append((key, 'exploration timed out', ''))
+        # an exploration that does not finish leaves the claim undecided (reported), it is not a harness error
+        paths[key] = [dict(decisions=None, status='budget', info=dict(msg='exploration did not finish in 300 s'), labels=[], kinds=[])]
 
     budget = getattr(hmod, 'WALL_BUDGET', {}).get(tier, 420 if tier == 'quick' else 2400)
     deadline = t_start + budget
